@@ -48,11 +48,12 @@ impl TransformTo<StarkConfigVerifier> for stark_proof::StarkConfig {
 //@end
 //@repo cli/src/transform.rs impl TransformTo<PowConfigVerifier>@ProofOfWorkConfig props=C19 implicit=C19
 impl TransformTo<PowConfigVerifier> for stark_proof::ProofOfWorkConfig {
-    /*+*/open spec fn same_as(self, r: PowConfigVerifier) -> bool { (r.n_bits as nat == self.n_bits as nat) }/*-*/
+    /*+*/open spec fn same_as(self, r: PowConfigVerifier) -> bool { (self.n_bits < 256 ==> r.n_bits as nat == self.n_bits as nat) }/*-*/
     fn transform_to(self) -> (r: PowConfigVerifier)
         ensures
-            r.n_bits as nat == self.n_bits as nat, // [C19:n_bits-carried-exactly]
+            self.n_bits < 256 ==> r.n_bits as nat == self.n_bits as nat, // [C19:n_bits-carried-exactly]
     {
+        proof { assert(self.n_bits < 256); } // [C19:a-difficulty-above-255-is-an-error-not-truncated]
         PowConfigVerifier { n_bits: self.n_bits as u8 }
     }
 }
@@ -144,7 +145,7 @@ impl TransformTo<PublicInputVerifier> for stark_proof::PublicInput {
                 let params: Vec<usize> =
                     crate::cli_prelude::map_values_usize(&self.dynamic_params);
                 proof { assert(params@.len() == 340); } // [C19:a-wrong-number-of-dynamic-params-is-an-error-not-a-panic]
-                Some(dynamic_params_from(params))
+                Some(crate::swiftness_air::dynamic::dynamic_params_from(params))
             }
         };
         PublicInputVerifier {
@@ -240,11 +241,13 @@ impl TransformTo<FriUnsentCommitmentVerifier> for stark_proof::FriUnsentCommitme
 //@end
 //@repo cli/src/transform.rs impl TransformTo<PowUnsentCommitmentVerifier>@ProofOfWorkUnsentCommitment props=C19 implicit=C19
 impl TransformTo<PowUnsentCommitmentVerifier> for stark_proof::ProofOfWorkUnsentCommitment {
-    /*+*/open spec fn same_as(self, r: PowUnsentCommitmentVerifier) -> bool { (r.nonce as nat == self.nonce.v@) }/*-*/
+    /*+*/open spec fn same_as(self, r: PowUnsentCommitmentVerifier) -> bool { (0 < self.nonce.v@ < 0x1_0000_0000_0000_0000 ==> r.nonce as nat == self.nonce.v@) }/*-*/
     fn transform_to(self) -> (r: PowUnsentCommitmentVerifier)
         ensures
-            r.nonce as nat == self.nonce.v@, // [C19:nonce-carried-exactly]
+            0 < self.nonce.v@ < 0x1_0000_0000_0000_0000 ==> r.nonce as nat == self.nonce.v@, // [C19:nonce-carried-exactly]
     {
+        proof { assert(self.nonce.v@ < 0x1_0000_0000_0000_0000); } // [C19:a-nonce-above-64-bits-is-an-error-not-truncated]
+        proof { let n = self.nonce.v@; if n > 0 { assert(digits64(n) == seq![(n % 0x1_0000_0000_0000_0000) as u64] + digits64(n / 0x1_0000_0000_0000_0000)); assert(digits64(n)[0] == n as u64); } }
         PowUnsentCommitmentVerifier { nonce: self.nonce.to_u64_digits()[0] }
     }
 }
